@@ -6,7 +6,7 @@ from .. import oracle as o
 
 ID = 'C07'
 RULE = ('one record per decrypt attempt (one-shot and incremental with 2 partitions); verdict must be true iff the supplied tag equals the '
-        'RFC 8439 tag of the inputs as submitted; from each valid tuple: all 128 single-bit tag flips, multi-byte tag changes whose XOR cancels, '
+        'RFC 8439 tag of the inputs as submitted; tuples include ciphertexts solved so that the Poly1305 accumulator hits carry-rippling patterns (valid tag and tag +- 2^k); from each valid tuple: all 128 single-bit tag flips, multi-byte tag changes whose XOR cancels, '
         'complemented tag, sampled bit flips in ciphertext / AAD / nonce / key, truncation and extension, bytes moved across the AAD|ciphertext '
         'boundary, swapped lengths, foreign tag, zero tag, and the unmodified tuple; distinct = (interface, mutation kind, position)')
 ASSUMPTIONS = ['AEAD model of C06']
@@ -40,6 +40,32 @@ def gen(tier, seed):
         rounds = 20 if i % 5 else rng.choice([8, 12])
         ct, tag = o.aead_encrypt(key, nonce, aad, pt, rounds)
         tuples.append((rounds, key, nonce, aad, ct, tag))
+    # tuples whose Poly1305 accumulator sits on carry-rippling / extreme limb patterns (valid tag must be accepted, neighbours rejected)
+    from ..polytargets import accumulator_targets, solve_last_block, absorb
+    CL = 0x0ffffffc0ffffffc0ffffffc0fffffff
+    for _ in range(12 if thorough else 4):
+        key, nonce = rng.bytes(32), rng.bytes(12)
+        otk = o.chacha_ietf_block(key, nonce, 0)[:32]
+        r = int.from_bytes(otk[:16], 'little') & CL; sv = int.from_bytes(otk[16:], 'little')
+        if r == 0:
+            continue
+        for T in accumulator_targets(rng, r, sv, 40 if thorough else 24):
+            for _try in range(12):
+                aad = rng.bytes(rng.choice([0, 7, 16]))
+                pre = rng.bytes(16 * rng.rng(0, 2))
+                acc = absorb(r, absorb(r, 0, aad + o.pad16(aad)), pre)
+                lenblk = int.from_bytes(struct.pack('<QQ', len(aad), len(pre) + 16) + b'\x01', 'little')
+                last = solve_last_block(r, acc, T, after=(lenblk,))
+                if last is None:
+                    continue
+                ct = pre + last
+                tag = tag_of(20, key, nonce, aad, ct)
+                yield from dec_lines(rng, 20, key, nonce, aad, ct, tag, 'valid-directed-accumulator')
+                for delta in (1 << 64, 1 << 96, 1 << 32, 1):
+                    for sgn in (1, -1):
+                        t2 = ((int.from_bytes(tag, 'little') + sgn * delta) % (1 << 128)).to_bytes(16, 'little')
+                        yield from dec_lines(rng, 20, key, nonce, aad, ct, t2, 'tag-plus-minus-2^k')
+                break
     for ti, (rounds, key, nonce, aad, ct, tag) in enumerate(tuples):
         D = lambda *a: dec_lines(rng, rounds, *a)
         yield from D(key, nonce, aad, ct, tag, 'valid')
